@@ -382,6 +382,11 @@ class JSONRPCMessage(McpPydanticBase):  # type: ignore[no-redef]
                     # Validate error structure
                     if "code" not in data["error"] or "message" not in data["error"]:
                         raise ValueError("Error must have 'code' and 'message' fields")
+                    code = data["error"]["code"]
+                    if isinstance(code, bool) or not isinstance(code, int):
+                        raise ValueError("Error must have an integer 'code' field")
+                    if not isinstance(data["error"]["message"], str):
+                        raise ValueError("Error must have a string 'message' field")
 
         return super().model_validate(data)
 
